@@ -79,7 +79,8 @@ func writeEntry(t *Table, entry kv.Entry) {
 	}
 	// Set ending entry values
 	t.endKey = entry.Key()
-	t.endSeqNum = entry.SeqNum()
+	// Entries are ordered by key so the last entry doesn't need to be the newest.
+	t.endSeqNum = max(t.endSeqNum, entry.SeqNum())
 
 	// Add to metadata
 	t.searchIndex.IndexOffset(t.size)
